@@ -49,6 +49,7 @@ pub fn evaluate(scn: &Scenario, log: &RunLog, res: &mut ScenarioResult) {
     match prop {
         "C15" => c15(scn, log, res),
         "C12" => c12(scn, log, res),
+        "C19" => c19(scn, log, res),
         _ => {}
     }
     res.shape = shape(scn, res);
@@ -537,6 +538,297 @@ fn c12(scn: &Scenario, log: &RunLog, res: &mut ScenarioResult) {
     let _ = Body::Sync { origin: wire::Ts::default() };
 }
 
+
+// ------------------------------------------------------------------------ C19
+
+/// one BMCA round of the daemon, reconstructed from its debug log: every line the main task logs
+/// during the poll that runs `instance.bmca()` (and publishes the state right after it)
+#[derive(Clone, Debug)]
+pub struct Round {
+    pub t_ns: u64,
+    pub poll: u64,
+    /// port states right after the round
+    pub states: Vec<String>,
+    /// transitions the BMCA itself made: (port, from, to)
+    pub changes: Vec<(usize, String, String)>,
+}
+
+pub fn rounds_of(np: usize, log: &RunLog) -> Vec<Round> {
+    let mut state = vec!["Listening".to_string(); np];
+    let mut rounds: Vec<Round> = Vec::new();
+    let mut cur: Option<Round> = None;
+    for l in &log.daemon_log {
+        if let Some(r) = &cur {
+            if l.poll != r.poll {
+                let mut r = cur.take().unwrap();
+                r.states = state.clone();
+                rounds.push(r);
+            }
+        }
+        if l.msg.starts_with(crate::logcap::ROUND_MARKER) {
+            if cur.is_none() {
+                cur = Some(Round { t_ns: l.t_ns, poll: l.poll, states: Vec::new(), changes: Vec::new() });
+            }
+            continue;
+        }
+        if let Some((p, a, b)) = crate::logcap::parse_transition(&l.msg) {
+            if p < np {
+                state[p] = b.clone();
+                if let Some(r) = cur.as_mut() {
+                    r.changes.push((p, a, b));
+                }
+            }
+        }
+    }
+    if let Some(mut r) = cur.take() {
+        r.states = state.clone();
+        rounds.push(r);
+    }
+    rounds
+}
+
+fn masked(bytes: &[u8]) -> Option<serde_json::Value> {
+    let mut v: serde_json::Value = serde_json::from_slice(bytes).ok()?;
+    // the one wall-clock quantity (std::time::Instant in the observer)
+    if let Some(p) = v.get_mut("program").and_then(|p| p.as_object_mut()) {
+        p.insert("uptime_seconds".into(), serde_json::json!(0));
+    }
+    Some(v)
+}
+
+fn c19(scn: &Scenario, log: &RunLog, res: &mut ScenarioResult) {
+    use statime_linux::metrics::exporter::ObservableState;
+    let prop = "C19";
+    let np = scn.daemon.ports.len();
+    let rounds = rounds_of(np, log);
+    let own = scn.daemon.identity;
+    let zero = statime::time::Duration::ZERO;
+    *res.probes.entry("c19_bmca_rounds".into()).or_insert(0) += rounds.len() as u64;
+
+    // transitions outside the rounds (port tasks: receipt timeouts, peer-delay faults), with their instants
+    let off_round: Vec<(u64, usize)> = log
+        .daemon_log
+        .iter()
+        .filter(|l| !rounds.iter().any(|r| r.poll == l.poll))
+        .filter_map(|l| crate::logcap::parse_transition(&l.msg).map(|(p, _, _)| (l.t_ns, p)))
+        .collect();
+
+    struct Doc {
+        t_ns: u64,
+        round: usize,
+        state: ObservableState,
+        value: serde_json::Value,
+    }
+    let mut docs: Vec<Doc> = Vec::new();
+    let mut dig = Fnv::new();
+    for o in &log.obs {
+        res.oracle_evals += 1;
+        match &o.result {
+            Err(e) => {
+                if o.t_ns > 0 {
+                    let kind: String = e.chars().filter(|c| !c.is_ascii_digit()).take(40).collect();
+                    violate(res, prop, "C19.observation_socket_unavailable", format!("kind={kind}"), format!("t={} reading the observation socket failed: {e}", secs(o.t_ns)));
+                }
+            }
+            Ok(bytes) => {
+                let parsed = serde_json::from_slice::<ObservableState>(bytes);
+                let value = masked(bytes);
+                match (parsed, value) {
+                    (Ok(state), Some(value)) => {
+                        dig.u64(o.rounds_before);
+                        dig.str(&value.to_string());
+                        if o.rounds_before == o.rounds_after {
+                            docs.push(Doc { t_ns: o.t_ns, round: o.rounds_before as usize, state, value });
+                        } else {
+                            *res.probes.entry("c19_reads_overlapping_a_round_skipped".into()).or_insert(0) += 1;
+                        }
+                    }
+                    (Err(e), _) => violate(
+                        res,
+                        prop,
+                        "C19.observation_unparsable",
+                        "reader=exporter_type".into(),
+                        format!("t={} the {} bytes read from the observation socket do not deserialise as the exporter's ObservableState: {e}; start: {}", secs(o.t_ns), bytes.len(), String::from_utf8_lossy(&bytes[..bytes.len().min(80)])),
+                    ),
+                    (_, None) => violate(res, prop, "C19.observation_unparsable", "reader=json".into(), format!("t={} not JSON", secs(o.t_ns))),
+                }
+            }
+        }
+    }
+    res.digest ^= dig.finish();
+    *res.probes.entry("c19_documents_checked".into()).or_insert(0) += docs.len() as u64;
+
+    let mut seen_nonzero_slave = false;
+    let mut last_of_round: Option<usize> = None;
+    let mut judged_round: Option<usize> = None;
+    for (di, d) in docs.iter().enumerate() {
+        res.oracle_evals += 1;
+        let inst = &d.state.instance;
+        // (d) nothing changes between two BMCA rounds
+        if let Some(prev) = last_of_round {
+            if docs[prev].round == d.round && docs[prev].value != d.value {
+                violate(
+                    res,
+                    prop,
+                    "C19.observation_changes_without_bmca",
+                    "field=instance".into(),
+                    format!("the documents read at t={} and t={} differ although no BMCA round ran in between (round {})", secs(docs[prev].t_ns), secs(d.t_ns), d.round),
+                );
+            }
+        }
+        last_of_round = Some(di);
+        if d.round == 0 {
+            // published by actual_main before the first round: no ports yet
+            if !inst.port_ds.is_empty() || inst.current_ds.offset_from_master != zero || inst.current_ds.steps_removed != 0 {
+                violate(res, prop, "C19.published_state_before_first_round_not_initial", String::new(), format!("t={} before the first BMCA round the observation shows {} ports, stepsRemoved {}", secs(d.t_ns), inst.port_ds.len(), inst.current_ds.steps_removed));
+            }
+            continue;
+        }
+        let Some(r) = rounds.get(d.round - 1) else { continue };
+        let next_t = rounds.get(d.round).map(|n| n.t_ns).unwrap_or(log.end_ns);
+        let published: Vec<String> = inst.port_ds.iter().map(|p| format!("{:?}", p.port_state)).collect();
+        if published.len() != np {
+            violate(res, prop, "C19.published_port_state_differs_from_behaviour", "kind=number_of_ports".into(), format!("t={} the observation lists {} ports, the daemon has {np}", secs(d.t_ns), published.len()));
+            continue;
+        }
+        let any_slave = published.iter().any(|s| s == "Slave");
+        let any_faulty = published.iter().any(|s| s == "Faulty");
+        let cur = &inst.current_ds;
+        let par = &inst.parent_ds;
+        // (a) without a slave port the current data set has no offset and no delay, and the instance is
+        // its own parent (unless a Faulty port holds the best master: S1 updates the data sets, not the port)
+        if !any_slave {
+            if cur.offset_from_master != zero || cur.mean_delay != zero {
+                violate(
+                    res,
+                    prop,
+                    "C19.published_offset_without_slave_port",
+                    format!("kind=offset_or_delay_nonzero bmca_took_slave_role_away={}", r.changes.iter().any(|c| c.1 == "Slave")),
+                    format!(
+                        "observation read at t={} (published by the BMCA round at t={}): no port is Slave (ports {:?}) but offset_from_master={} ns, mean_delay={} ns; BMCA transitions of that round: {:?}",
+                        secs(d.t_ns),
+                        secs(r.t_ns),
+                        published,
+                        cur.offset_from_master.nanos_rounded(),
+                        cur.mean_delay.nanos_rounded(),
+                        r.changes
+                    ),
+                );
+            }
+            if !any_faulty && (cur.steps_removed != 0 || par.grandmaster_identity.0 != own || par.parent_port_identity.clock_identity.0 != own) {
+                violate(
+                    res,
+                    prop,
+                    "C19.published_offset_without_slave_port",
+                    "kind=parent_not_own".into(),
+                    format!("observation read at t={} (round at t={}): no port is Slave (ports {:?}) but stepsRemoved={}, parent {}, grandmaster {}", secs(d.t_ns), secs(r.t_ns), published, cur.steps_removed, hex(&par.parent_port_identity.clock_identity.0), hex(&par.grandmaster_identity.0)),
+                );
+            }
+        } else if cur.offset_from_master != zero {
+            seen_nonzero_slave = true;
+        }
+        // (a') a port the BMCA has just made slave (or given a new parent) has a fresh filter
+        for (p, _a, b) in &r.changes {
+            if b == "Slave" && published[*p] == "Slave" && !scn.daemon.ports[*p].p2p && r.changes.iter().filter(|c| c.2 == "Slave").count() == 1 && (cur.offset_from_master != zero || cur.mean_delay != zero) {
+                violate(
+                    res,
+                    prop,
+                    "C19.published_offset_of_new_slave_port",
+                    format!("from={}", r.changes.iter().find(|c| c.0 == *p).map(|c| c.1.clone()).unwrap_or_default()),
+                    format!(
+                        "observation read at t={} (round at t={}): port {p} became slave in this very round ({:?}), its filter has no measurement yet, but offset_from_master={} ns, mean_delay={} ns",
+                        secs(d.t_ns),
+                        secs(r.t_ns),
+                        r.changes,
+                        cur.offset_from_master.nanos_rounded(),
+                        cur.mean_delay.nanos_rounded()
+                    ),
+                );
+            }
+        }
+        // (b) published port states = the states the daemon's own log gives right after the round
+        for p in 0..np {
+            if published[p] != r.states[p] {
+                violate(
+                    res,
+                    prop,
+                    "C19.published_port_state_differs_from_behaviour",
+                    format!("kind=log published={} logged={}", published[p], r.states[p]),
+                    format!("observation read at t={} (round at t={}): port {p} is published as {} but the daemon's state log has it in {} after that round", secs(d.t_ns), secs(r.t_ns), published[p], r.states[p]),
+                );
+            }
+        }
+        if judged_round == Some(d.round) {
+            continue;
+        }
+        judged_round = Some(d.round);
+        // ... and what the ports emit until the next round (unless a port task changed the state meanwhile)
+        for p in 0..np {
+            if off_round.iter().any(|(t, q)| *q == p && *t >= r.t_ns && *t <= next_t) {
+                continue;
+            }
+            let pc = &scn.daemon.ports[p];
+            let emitted = |class: Class| log.em.iter().filter(|e| e.port == p && e.class == class && e.t_ns > r.t_ns && e.t_ns < next_t).count();
+            let (ann, syn, dreq) = (emitted(Class::Announce), emitted(Class::Sync), emitted(Class::DelayReq));
+            let bad = match published[p].as_str() {
+                "Master" => dreq > 0,
+                "Slave" => ann > 0 || syn > 0,
+                _ => ann > 0 || syn > 0 || dreq > 0,
+            };
+            if bad {
+                violate(
+                    res,
+                    prop,
+                    "C19.published_port_state_differs_from_behaviour",
+                    format!("kind=emissions published={} p2p={}", published[p], pc.p2p),
+                    format!("port {p} is published as {} by the round at t={} but emits {ann} Announce, {syn} Sync, {dreq} Delay_Req before the next round at t={}", published[p], secs(r.t_ns), secs(next_t)),
+                );
+            }
+            // (c) a master port announces the published parent data
+            if published[p] == "Master" {
+                if let Some((t, f)) = log.em.iter().filter(|e| e.port == p && e.class == Class::Announce && e.t_ns > r.t_ns && e.t_ns < next_t).find_map(|e| Frame::decode(&e.bytes).ok().map(|f| (e.t_ns, f))) {
+                    if let Some(a) = f.announce() {
+                        if a.gm_identity != par.grandmaster_identity.0 || a.steps_removed != cur.steps_removed {
+                            violate(
+                                res,
+                                prop,
+                                "C19.published_parent_differs_from_announces",
+                                format!("gm_equal={} steps_equal={}", a.gm_identity == par.grandmaster_identity.0, a.steps_removed == cur.steps_removed),
+                                format!("round at t={} published grandmaster {} stepsRemoved {}, but port {p} (published Master) announces grandmaster {} stepsRemoved {} at t={}", secs(r.t_ns), hex(&par.grandmaster_identity.0), cur.steps_removed, hex(&a.gm_identity), a.steps_removed, secs(t)),
+                            );
+                        }
+                    }
+                }
+            }
+        }
+    }
+    // a port that stays Master over several rounds must announce
+    for p in 0..np {
+        let pc = &scn.daemon.ports[p];
+        let mut start: Option<u64> = None;
+        for (j, r) in rounds.iter().enumerate() {
+            let next_t = rounds.get(j + 1).map(|n| n.t_ns).unwrap_or(log.end_ns);
+            let disturbed = off_round.iter().any(|(t, q)| *q == p && *t >= r.t_ns && *t <= next_t);
+            if r.states[p] == "Master" && !disturbed {
+                let s = *start.get_or_insert(r.t_ns);
+                let lost = scn.faults.iter().filter(|f| matches!(f, Fault::TxTimestamp { .. })).count() as u64;
+                if next_t - s >= 2 * pc.announce_ns() + 100 * MS + lost * 200 * MS && !log.em.iter().any(|e| e.port == p && e.class == Class::Announce && e.t_ns >= s && e.t_ns <= next_t) {
+                    violate(res, prop, "C19.published_port_state_differs_from_behaviour", "kind=master_without_announces".into(), format!("port {p} is Master from t={} to t={} (every round in between) but emits no Announce", secs(s), secs(next_t)));
+                    start = None;
+                }
+            } else {
+                start = None;
+            }
+        }
+    }
+    let moved = rounds.iter().filter(|r| r.changes.iter().any(|c| c.1 == "Slave")).count() as u64;
+    *res.probes.entry("c19_rounds_where_the_bmca_took_or_moved_the_slave_role".into()).or_insert(0) += moved;
+    res.nontrivial = seen_nonzero_slave && !docs.is_empty();
+    if seen_nonzero_slave && moved > 0 {
+        *res.probes.entry("c19_scenarios_with_nonzero_estimate_then_bmca_driven_change".into()).or_insert(0) += 1;
+    }
+}
+
 // ---------------------------------------------------------------------- shapes
 
 /// fingerprint of the scenario's shape (what "distinct" counts in the evidence)
@@ -647,6 +939,41 @@ pub fn trace(scn: &Scenario, log: &RunLog) -> Vec<String> {
                 lines.push((first, label));
             } else {
                 lines.push((first, format!("{label} x{n} until t={} (gaps {}..{} ms)", secs(last), gmin / MS, gmax / MS)));
+            }
+        }
+    }
+    if scn.property == "C19" {
+        let rounds = rounds_of(scn.daemon.ports.len(), log);
+        for (j, r) in rounds.iter().enumerate() {
+            if !r.changes.is_empty() {
+                lines.push((r.t_ns, format!("   == BMCA round {} changes {:?} -> ports {:?}", j + 1, r.changes, r.states)));
+            }
+        }
+        let mut last = String::new();
+        for o in &log.obs {
+            let text = match &o.result {
+                Ok(b) => match serde_json::from_slice::<statime_linux::metrics::exporter::ObservableState>(b) {
+                    Ok(st) => {
+                        let i = &st.instance;
+                        format!(
+                            "ports {:?} stepsRemoved {} parent {} gm {} offset_from_master {} ns mean_delay {} ns",
+                            i.port_ds.iter().map(|p| format!("{:?}", p.port_state)).collect::<Vec<_>>(),
+                            i.current_ds.steps_removed,
+                            hex(&i.parent_ds.parent_port_identity.clock_identity.0[5..]),
+                            hex(&i.parent_ds.grandmaster_identity.0[5..]),
+                            i.current_ds.offset_from_master.nanos_rounded(),
+                            i.current_ds.mean_delay.nanos_rounded()
+                        )
+                    }
+                    Err(e) => format!("UNPARSABLE {e}"),
+                },
+                Err(e) => format!("FAILED {e}"),
+            };
+            // only documents that differ from the previous one, in their coarse content
+            let coarse: String = text.split(" offset_from_master").next().unwrap_or("").to_string() + if text.contains("offset_from_master 0 ns") { " zero" } else { " nonzero" };
+            if coarse != last {
+                lines.push((o.t_ns, format!("   >> observation (after round {}, {}): {}", o.rounds_before, o.why, text)));
+                last = coarse;
             }
         }
     }
